@@ -25,7 +25,7 @@ from sim.gen import specs
 ID = "C19"
 LEVEL = "exploration"
 TIERS = {
-    "quick": {"segments": 224, "wall": 130, "min_budget": 90, "subprocess_every": 0},
+    "quick": {"segments": 640, "wall": 130, "min_budget": 90, "subprocess_every": 0},
     "thorough": {"segments": 8000, "wall": 1500, "min_budget": 600, "subprocess_every": 30},
 }
 SEGMENT_TIMEOUT = 900
